@@ -50,6 +50,40 @@ def charges(f):
     return out
 
 
+
+def charged_on_every_path(prog, host, site_bb, site_fn_path):
+    """path-sensitive form of "a propagated charge dominates the re-entry": in the helper-transparent view of `host`,
+    on every path that reaches the call at `site_bb` (or any call handing over the closure `site_fn_path`) a charge
+    call (`push_frame` / `incr_depth`) returned Ok and none returned Err"""
+    from .pairs import host_view
+    from .. import typestate
+    from ..facts import norm_path
+    v = host_view(prog, host)
+    bad = []
+    hit = []
+
+    def is_site(c):
+        if site_fn_path is None:
+            return v is host and c.bb == site_bb
+        for a in c.args:
+            for o in flow.origins(v, a):
+                if o.kind == "agg" and o.rv.get("closure") and norm_path(o.rv["closure"]) == site_fn_path:
+                    return True
+        return False
+
+    def on_call(c, st, val):
+        charged, failed = st
+        if c.fn is v and c.name in (PUSH, INCR):
+            return [((min(charged + 1, 2), failed), ("Ok",)), ((charged, True), ("Err",))]
+        if c.fn is v and is_site(c):
+            hit.append(c.bb)
+            if charged == 0 or failed:
+                bad.append(c.bb)
+        return None
+    r = typestate.explore(prog, v, (0, False), on_call)
+    return bool(hit) and not bad and not r.budget_hit
+
+
 def closure_host_call(prog, cl):
     """(host fn, bb of the call the closure value is passed to)"""
     host = prog.fns.get(cl.parent)
@@ -164,7 +198,49 @@ def _charges(prog, root):
                 if any(o.kind == "call" and o.call.name == DEPTH for o in flow.origins(g, rv["a"])):
                     kk = int(rv["b"]["c"].get("int", 0)) - (1 if rv["op"] == "Ge" else 0)
                     thr = kk if thr is None else min(thr, kk)
+    if cond > 0 and root.kind != "closure":
+        # dominance is only the simplest way to be unconditional: a charge inside `match push_frame(..) { Ok(()) => .. }`
+        # is taken on every path that goes on to the evaluation.  Walk the paths: what is the least a path has charged
+        # (successfully) when it enters the interpreter?
+        lo = _least_charged_on_paths(prog, root)
+        if lo is not None and lo >= uncond + cond:
+            uncond, cond = uncond + cond, 0
     return uncond, cond, thr
+
+
+def _least_charged_on_paths(prog, root):
+    from .pairs import host_view
+    from .. import typestate
+    v = host_view(prog, root)
+    seen = []
+
+    def val_of(k):
+        if k.name == PUSH or k.name.endswith("Context::reset_with_frame"):
+            return 1
+        if k.name == INCR:
+            best = 0
+            for o in _resolved_origins(prog, v, k.args[1]):
+                if o.kind == "const" and "int" in o.const:
+                    best = max(best, int(o.const["int"]))
+            return best
+        return 0
+
+    def on_call(c, st, val):
+        if c.fn is not v:
+            return None
+        w = val_of(c)
+        if w:
+            ty = v.locals[c.dest["l"]] if (c.dest is not None and "p" not in c.dest) else {}
+            if ty.get("adt") == "core::result::Result":
+                return [(min(st + w, 64), ("Ok",)), (st, ("Err",))]
+            return [(min(st + w, 64), None)]
+        if c.name in CHAIN or c.name.endswith("State::with_execution_state"):
+            seen.append(st)
+        return None
+    r = typestate.explore(prog, v, 0, on_call)
+    if r.budget_hit or not seen:
+        return None
+    return min(seen)
 
 
 def frame_lookup(sizes, path):
@@ -418,6 +494,15 @@ def check_depth_accounting(ctx, prog, tag):
             for k in h.calls():
                 if k.name == INCR:
                     charged |= _const_of(h, k.args[1], prog)
+        if not charged:
+            # charge and refund may sit in two private helpers of one function (`enter_..(state)?; ..; leave_..(state)`):
+            # what was charged is looked for in the functions that call this one, helpers looked through
+            from .pairs import host_view
+            for site in prog.callers().get((host or g).path, []):
+                hv = host_view(prog, site.fn)
+                for k in hv.calls():
+                    if k.name == INCR:
+                        charged |= _const_of(hv, k.args[1], prog)
         ctx.ob("C11.R6.decrement-matches-charge", "%s%s" % (tag, g.path), bool(amt) and amt <= charged,
                "decr_depth(%s) does not give back what incr_depth charged (%s)" % (sorted(map(str, amt)), sorted(map(str, charged))),
                g.where(c.bb))
@@ -533,6 +618,17 @@ def run(ctx):
                 if host is not None and hc is not None:
                     ch = [k for k in charges(host) if cfg.dominates(host, k.bb, hc.bb)]
                     how = "charged in %s before the closure is run" % host.path
+            if not ch:
+                # the charge may sit in a helper, and its success in a value (`let entered = match push_frame(..) {..}`):
+                # walk the paths of the function (for a closure: of the function that hands it to the evaluation)
+                if f.kind == "closure":
+                    host, hc = closure_host_call(prog, f)
+                    if host is not None and charged_on_every_path(prog, host, None, f.path):
+                        ch = ["paths"]
+                        how = "every path of %s to the evaluation of this closure passes a successful charge" % host.path
+                elif charged_on_every_path(prog, f, c.bb, None):
+                    ch = ["paths"]
+                    how = "every path to this call passes a successful charge"
             ctx.ob("C11.R1.re-entry-is-charged", inst, bool(ch),
                    how if ch else "no push_frame/incr_depth with a propagated Err dominates this call into the "
                                   "interpreter: recursion through it is not counted against the limit",
